@@ -552,7 +552,7 @@ impl Property for C17 {
     }
     fn describe(&self) -> Describe {
         Describe {
-            rule: "case = base document authored through the library (1-3 pages, 2-4 AcroForm text fields, 0-2 text notes) written under a table / xref-stream / object-stream configuration, then a history of 1-6 incremental edits drawn from IncrementalFormFiller::fill / fill_many (values over ASCII, Latin-1, BMP, astral, CR/LF, delimiters; unique suffixes) and IncrementalTextNoteEditor::apply(Add | Update | Remove), and PdfWriter::write_incremental_with_page_replacement (page 0 replaced by a freshly authored page). After EVERY applied edit: (1) the previous file is an exact byte prefix and something was appended; (2) the library, reading through a fault-free or short-reading source under one preset, shows every field's latest value (PdfString::to_text) and exactly the model's notes; (3) the independent reader walks startxref -> xref -> /Prev ... to the base, with /Prev strictly decreasing, /Size monotone and every section and object structurally valid, and decodes the same latest values; (4) every object outside the objects (re)defined by the appended section reads exactly as before. Reference model: {field -> value}, [note (page, position, contents)]. non-trivial = at least one edit applied; distinct = digest of (base bytes, edit list).".into(),
+            rule: "case = base document authored through the library (1-3 pages, 2-4 AcroForm text fields, 0-2 text notes) written under a table / xref-stream / object-stream configuration and ending after %%EOF in one of five legal ways (as written, no end-of-line, CR LF, CR, extra LFs; for some cases re-applied after every edit), then a history of 1-6 incremental edits drawn from IncrementalFormFiller::fill / fill_many (values over ASCII, Latin-1, BMP, astral, CR/LF, delimiters; unique suffixes) and IncrementalTextNoteEditor::apply(Add | Update | Remove), and PdfWriter::write_incremental_with_page_replacement (page 0 replaced by a freshly authored page). After EVERY applied edit: (1) the previous file is an exact byte prefix and something was appended; (2) the library, reading through a fault-free or short-reading source under one preset, shows every field's latest value (PdfString::to_text) and exactly the model's notes; (3) the independent reader walks startxref -> xref -> /Prev ... to the base, with /Prev strictly decreasing, /Size monotone and every section and object structurally valid, and decodes the same latest values; (4) every object outside the objects (re)defined by the appended section reads exactly as before. Reference model: {field -> value}, [note (page, position, contents)]. non-trivial = at least one edit applied; distinct = digest of (base bytes, edit list).".into(),
             assumptions: vec![
                 "an edit the API refuses (Err) appends nothing and is skipped".into(),
                 "PdfWriter::write_incremental_with_page_replacement is driven with the base in a real temp file (inert input, no seam) and the output through a shortening SimSink; _update and _overlay share its code path for numbering and xref emission but are not driven".into(),
